@@ -583,6 +583,10 @@ P_C08_Partition(pre, post, dk, op, ob) ==
   (op.op \in {"create", "createsf"} /\ ob.exit \in {0, 10, 11})
     => LET H == Visible(pre, dk, op.R) \cup Wrote(pre, post)
        IN \A h \in Wrote(pre, post) : \A g \in SeqSet(NewGens(pre, post, h)) :
+            \* a record names an existing entry by its path relative to the history root (nothing like ../x) ...
+            /\ \A rp \in DOMAIN g.files : IsFile(dk, h \o rp)
+            /\ \A rp \in DOMAIN g.dirs : IsDir(dk, h \o rp)
+            \* ... and that entry belongs to this history and to no deeper one
             /\ \A rp \in DOMAIN g.files : OwnerIn(H, op.R, h \o rp, FALSE) = h
             /\ \A rp \in DOMAIN g.dirs :
                  LET d == h \o rp IN
